@@ -110,9 +110,21 @@ def decide(prop, mod, results, tier, seed, wall):
                 if o["status"] == "failed":
                     o = dict(o, fallback_bound=fb["bounded"])
                     obs = [x for x in obs if x["name"] != o["name"]] + [o]
+        en = r.get("enumeration")
+        if en:
+            if en.get("error"):
+                crash.append({"task": r["task"], "error": "bounded enumeration crashed: " + en["error"]})
+            st = "failed" if en["failures"] else "discharged"
+            f0 = en["failures"][0] if en["failures"] else None
+            obs.append({"name": en["name"], "kind": "bounded-enumeration", "deciding": True, "status": st, "paths": en["cases"],
+                        "queries": 0, "solver_s": 0, "backends": ["cpython"], "enum_bound": en["bound"],
+                        "failure": ({"model": f0["model"], "native": f0["detail"], "violated": f0["detail"], "decisions": None, "backend": "cpython"} if f0 else None)})
         for o in obs:
             row = dict(o, task=r["task"])
-            if is_bounded:
+            if o.get("enum_bound"):
+                row["bounded"] = "exhaustive native enumeration: " + o["enum_bound"]
+                bounded_rows.append(row)
+            elif is_bounded:
                 row["bounded"] = r.get("bounded") or ", ".join(r.get("bounds_applied", []))
                 bounded_rows.append(row)
             else:
@@ -120,10 +132,11 @@ def decide(prop, mod, results, tier, seed, wall):
             if not o.get("deciding", True):
                 row["informational"] = True
                 continue
-            if not is_bounded:
+            counted = not is_bounded and not o.get("enum_bound")
+            if counted:
                 obligations += 1
             if o["status"] == "discharged":
-                if not is_bounded:
+                if counted:
                     discharged += 1
             elif o["status"] == "undecided":
                 undecided.append({"task": r["task"], "obligation": o["name"], "reason": o.get("undecided_reason", "unknown")})
@@ -131,7 +144,9 @@ def decide(prop, mod, results, tier, seed, wall):
                 fail = o.get("failure") or {}
                 rep = {"confirmed": None, "detail": "no replay function for this obligation"}
                 fn = _lookup(getattr(mod, "REPLAY", {}), o["name"])
-                if fn is not None and fail.get("model") is not None:
+                if fail.get("native"):
+                    rep = {"confirmed": True, "detail": fail["native"]}
+                elif fn is not None and fail.get("model") is not None:
                     try:
                         c, d = fn(fail["model"])
                         rep = {"confirmed": bool(c), "detail": d}
